@@ -143,6 +143,20 @@ class FastHierarchyAnalyzer(HierarchyAnalyzerBase):
             if tuple(outputs[1]) not in exclude:
                 return outputs
 
+        def _respects_fixed() -> bool:
+            nodes = graph_instance.graph.nodes
+            for i_choice, fixed in enumerate(is_fixed):
+                if not fixed or opt_idx_imp[i_choice] != X_INACTIVE_VALUE:
+                    continue
+                fixed_choice_node = sel_choice_nodes[i_choice]
+                fixed_opt_nodes = sel_choice_opt_nodes[fixed_choice_node]
+                if not 0 <= opt_idx_try[i_choice] < len(fixed_opt_nodes):
+                    continue
+                if self.adsg.get_originating_node(fixed_choice_node) in nodes and \
+                        fixed_opt_nodes[opt_idx_try[i_choice]] not in nodes:
+                    return False
+            return True
+
         # Iterate over current and neighboring design vectors
         opt_idx_imp = opt_idx
         graph_instance = None
@@ -163,7 +177,12 @@ class FastHierarchyAnalyzer(HierarchyAnalyzerBase):
                 continue
 
             if graph_instance.feasible:
-                break
+                # A fixed choice may not silently get another option: if an earlier choice removed the fixed option, the
+                # choice is resolved automatically (and reported inactive), which would ignore the fixed value
+                if _respects_fixed():
+                    break
+                graph_instance = None
+                continue
 
             # Mark as infeasible
             exclude.add(opt_idx_try)
